@@ -60,6 +60,15 @@ def run_trace(tid, shape, events):
     wlog.setLevel(logging.DEBUG)
     wlog.propagate = False
     obj = None
+    try:
+        obj = make_object(kind, shape, joy)
+    except Exception as e:  # noqa
+        return {"id": tid, "shape": shape, "steps": [{"in": {"e": "raised"}, "out": {"r": "constructor raised %s: %s" % (type(e).__name__, e)}}]}
+    return run_events(tid, shape, events, obj, joy, cap)
+
+
+def make_object(kind, shape, joy):
+    obj = None
     if kind == "toggle":
         obj = Toggle(joy, 3) if shape["period"] == 0 else Toggle(joy, 3, shape["period"] / 64.0)
     elif kind == "bd":
@@ -68,6 +77,11 @@ def run_trace(tid, shape, events):
         obj = PeriodicFilter(shape["period"] / 64.0, bypass_level=shape["bypass"])
     elif kind == "wd":
         obj = SimpleWatchdog(shape["timeout"] / 1e6)
+    return obj
+
+
+def run_events(tid, shape, events, obj, joy, cap):
+    kind = shape["kind"]
     steps = []
     for ev in events:
         ev = {k: v for k, v in ev.items() if k != "x"}
